@@ -19,7 +19,7 @@ from .. import pt as PT
 from . import c05, c17
 
 PID = 'C18'
-QUERIES = ['fz_rule_nolabels', 'sp_real_fp', 'sp_log_newton', 'sp_real_linear', 'sp_bool', 'sp_viterbi', 'sps_real', 'viterbi',
+QUERIES = ['viterbi_bad_start', 'fz_rule_nolabels', 'sp_real_fp', 'sp_log_newton', 'sp_real_linear', 'sp_bool', 'sp_viterbi', 'sps_real', 'viterbi',
            'fz_rule', 'fz_hrg_quickbb', 'fz_fgg_acb', 'conj_self', 'conj_other', 'fgg_json', 'hrg_json']
 
 
@@ -57,13 +57,29 @@ def snap_hrg(g):
     return s
 
 
+def snap_globals():
+    """process-wide state a query has no business changing, observed through public calls only: the autograd mode, the
+    default dtype, and the constants that FRESH semiring objects hand out"""
+    import torch, fggs
+    g = {'grad_enabled': bool(torch.is_grad_enabled()), 'default_dtype': str(torch.get_default_dtype()),
+         'inference_mode': bool(torch.is_inference_mode_enabled())}
+    for name, mk in (('real', lambda: fggs.RealSemiring(dtype=torch.float64)), ('real32', lambda: fggs.RealSemiring()),
+                     ('log', lambda: fggs.LogSemiring(dtype=torch.float64)), ('viterbi', lambda: fggs.ViterbiSemiring(dtype=torch.float64)),
+                     ('bool', lambda: fggs.BoolSemiring())):
+        sr = mk()
+        g['const_' + name] = [repr(sr.from_int(0).tolist()), repr(sr.from_int(1).tolist()), repr(sr.from_int(2).tolist())]
+    return g
+
+
 def canon_result(r):
     """canonical, id-normalised form of a query result"""
     import torch, fggs
     from fggs.indices import PatternedTensor
     from fggs.derivations import FGGDerivation
     if isinstance(r, PatternedTensor):
-        return {'pt': [float(x).hex() if isinstance(x, float) else x for x in r.to_dense().reshape(-1).tolist()], 'shape': list(r.size())}
+        # whether the result is connected to the autograd graph is part of what the caller gets
+        return {'pt': [float(x).hex() if isinstance(x, float) else x for x in r.to_dense().reshape(-1).tolist()], 'shape': list(r.size()),
+                'rg': bool(r.physical.requires_grad)}
     if isinstance(r, dict) and r and all(isinstance(k, fggs.EdgeLabel) for k in r):
         return {k.name: canon_result(v) for k, v in sorted(r.items(), key=lambda kv: kv[0].name)}
     if isinstance(r, FGGDerivation):
@@ -100,6 +116,12 @@ class World:
         import torch
         self.a = a
         hooks = None
+        if flavour == 'structzero':
+            # one-hot vectors over a domain of size 2 held as patterns with DISJOINT supports: their product is a
+            # structural zero (einsum's unification fails), not a computed one
+            from fggs.indices import PatternedTensor, SumAxis, unitAxis
+            hooks = {'f': lambda ten: PatternedTensor(ten[0].clone(), (), (SumAxis(0, unitAxis, 1),), 0.),
+                     'g': lambda ten: PatternedTensor(ten[1].clone(), (), (SumAxis(1, unitAxis, 0),), 0.)}
         if flavour == 'patterned':
             from fggs.indices import PatternedTensor, PhysicalAxis
             hooks = {}
@@ -114,7 +136,7 @@ class World:
         if not AG_nonrecursive(a):
             # keep the recursive real / log sum-products finite: scale the natural weights down
             for f in self.fgg.factors.values():
-                f.weights = f.weights.to_dense() * 0.125
+                f.weights = (f.weights * 0.125) if flavour == 'structzero' else f.weights.to_dense() * 0.125
             for f in self.lfgg.factors.values():
                 f.weights = f.weights.to_dense() + math.log(0.125)
         if flavour == 'grad':
@@ -133,7 +155,7 @@ class World:
 
     def snapshot(self):
         return {'fgg': snap_hrg(self.fgg), 'lfgg': snap_hrg(self.lfgg), 'bfgg': snap_hrg(self.bfgg), 'vfgg': snap_hrg(self.vfgg),
-                'h1': snap_hrg(self.h1), 'h2': snap_hrg(self.h2)}
+                'h1': snap_hrg(self.h1), 'h2': snap_hrg(self.h2), 'globals': snap_globals()}
 
     def run(self, q):
         import torch, fggs
@@ -160,6 +182,14 @@ class World:
                     with torch.no_grad():
                         return fggs.viterbi(self.vfgg, tuple(0 for _ in sh), semiring=fggs.ViterbiSemiring(dtype=torch.float64))
                 return fggs.viterbi(self.vfgg, tuple(0 for _ in sh), semiring=fggs.ViterbiSemiring(dtype=torch.float64))
+            if q == 'viterbi_bad_start':
+                # a query that FAILS (a start assignment of the right length but outside the domain, or of the wrong
+                # length for a nullary start symbol): it must fail the same way every time and leave nothing behind
+                sh = AG.shape_of(a, a['start'])
+                if sh:
+                    return fggs.viterbi(self.vfgg, tuple(s + 5 for s in sh), semiring=fggs.ViterbiSemiring(dtype=torch.float64))
+                # nullary start symbol: no iteration budget at all (fails on a recursive grammar, succeeds otherwise)
+                return fggs.viterbi(self.vfgg, (), semiring=fggs.ViterbiSemiring(dtype=torch.float64), kmax=0)
             if q == 'fz_rule_nolabels':
                 # the rule with the most nodes (most likely to be split), labels argument omitted
                 r = max(self.fgg.all_rules(), key=lambda r: len(r.rhs.nodes()))
@@ -181,17 +211,27 @@ class World:
         raise ValueError(q)
 
 
-def first_results(mk):
-    first, firstout = {}, {}
+def first_results(mk, world):
+    """every query once on a FRESH copy of the objects: the reference result of the query -- and itself a judged history
+    of length one (the process has run nothing of the library before the first of them, so whatever a query leaves behind
+    in process-wide state is seen here first)"""
+    import torch
+    first, firstout, cases = {}, {}, []
     for q in QUERIES:
         w = mk()
+        pre = w.snapshot()
         try:
             first[q] = digest(canon_result(w.run(q)))
             firstout[q] = 'ok'
         except Exception as e:  # noqa
             first[q] = ''
             firstout[q] = 'raise:' + type(e).__name__
-    return first, firstout
+        post = w.snapshot()
+        cases.append({'world': world, 'hist': [q], 'events': [{'q': q, 'out': firstout[q], 'pre': digest(pre), 'post': digest(post), 'res': first[q],
+                                                             'what': what_differs(pre, post)}],
+                      'first': {q: first[q]}, 'firstout': {q: firstout[q]}})
+        torch.set_grad_enabled(True)        # the harness starts every session in the default autograd mode
+    return first, firstout, cases
 
 
 def what_differs(a, b):
@@ -221,11 +261,30 @@ def hmm_like(rng):
     return {'nls': nls, 'els': els, 'elorder': list(els), 'start': 'S', 'rules': rules, 'w': w, 'wmp': wmp}
 
 
+def struct_zero_ag():
+    """S -> X;  X -> f(v) g(v) | Y a;  Y -> X b | c   with f, g one-hot on different values: the nullary X, in a recursive
+    component, is a STRUCTURAL zero in the first iteration and becomes non-zero through its recursive rule"""
+    els = {'S': {'t': False, 'type': []}, 'X': {'t': False, 'type': []}, 'Y': {'t': False, 'type': []},
+           'f': {'t': True, 'type': ['T']}, 'g': {'t': True, 'type': ['T']}, 'a': {'t': True, 'type': []}, 'b': {'t': True, 'type': []},
+           'c': {'t': True, 'type': []}}
+    E = lambda lab, *att: {'lab': lab, 'att': list(att)}
+    rules = [{'lhs': 'S', 'nodes': [], 'edges': [E('X')], 'ext': []},
+             {'lhs': 'X', 'nodes': ['T'], 'edges': [E('f', 1), E('g', 1)], 'ext': []},
+             {'lhs': 'X', 'nodes': [], 'edges': [E('Y'), E('a')], 'ext': []},
+             {'lhs': 'Y', 'nodes': [], 'edges': [E('X'), E('b')], 'ext': []},
+             {'lhs': 'Y', 'nodes': [], 'edges': [E('c')], 'ext': []}]
+    w = {'f': [3, 0], 'g': [0, 5], 'a': [2], 'b': [1], 'c': [3]}
+    wmp = {'f': [0, NINF], 'g': [NINF, 0], 'a': [-1], 'b': [-1], 'c': [-2]}
+    return {'nls': {'T': 2}, 'els': els, 'elorder': list(els), 'start': 'S', 'rules': rules, 'w': w, 'wmp': wmp}
+
+
 def drive(args):
     widx, hists, seed = args
     rng = rng_for(seed, f'c18w{widx}')
     flavour = ['dense', 'grad', 'patterned'][widx % 3]
-    if widx in (1, 4):
+    if widx == 6:
+        a, flavour = struct_zero_ag(), 'structzero'
+    elif widx in (1, 4):
         a = hmm_like(rng)
     else:
         a = AG.gen_ag(rng, n_nts=(1, 3), max_rules=2, max_nodes=4, max_edges=3, recursion=('linear' if widx % 2 else 'none'), weights='small',
@@ -236,9 +295,10 @@ def drive(args):
         a = dict(a)
     cg = c17.gen_pair(rng, 'plain')
     mk = lambda: World(a, flavour, cg)
-    first, firstout = first_results(mk)
-    cases = []
+    import torch
+    first, firstout, cases = first_results(mk, [widx, flavour])
     for h in hists:
+        torch.set_grad_enabled(True)
         w = mk()
         events = []
         for q in h:
@@ -313,7 +373,7 @@ def run(tier, seed):
     o = Outcome(PID, tier, seed)
     o.assumptions = ['snapshots and results are compared through SHA-1 digests of their canonical JSON form (implicit ids normalised by order of appearance)',
                      'the documented labels argument of factorize_rule is passed as a fresh copy each time']
-    maxlen, nworlds = (2, 6) if tier == 'quick' else (3, 12)
+    maxlen, nworlds = (2, 7) if tier == 'quick' else (3, 13)
     with Scratch() as work:
         cfg = ('INIT Init\nNEXT Next\nINVARIANT Pure\nINVARIANT Reproducible\nINVARIANT Dump\nCHECK_DEADLOCK FALSE\nCONSTANTS\n'
                f'MaxLen = {maxlen}\nQueries = {{{", ".join(json.dumps(q) for q in QUERIES)}}}\n')
